@@ -633,7 +633,6 @@ macro_rules! algorithm {
         // For skipping digit-based formats, this approximation is a way over estimate.
         // NOTE: Skipping zeros is **EXPENSIVE* so we skip that without our format feature
         let zeros = iter.skip_zeros();
-        start_index += zeros;
 
         // Now, check to see if we have a valid base prefix.
         let mut is_prefix = false;
@@ -646,7 +645,8 @@ macro_rules! algorithm {
                 if iter.is_buffer_empty() {
                     into_error!(Empty, iter.cursor());
                 } else {
-                    start_index += 1;
+                    // The digits, and so a base suffix, can only start after the prefix.
+                    start_index = iter.cursor();
                 }
             }
         }
@@ -660,15 +660,13 @@ macro_rules! algorithm {
             if zeros > 1 {
                 into_error!(InvalidLeadingZeros, index);
             }
-            // NOTE: Zeros has to be 0 here, so our index == 1 or 2 (depending on sign)
-            match iter.peek().map(|&c| char_to_digit_const(c, format.radix())) {
-                // Valid digit, we have an invalid value.
-                Some(Some(_)) => into_error!(InvalidLeadingZeros, index),
-                // Have a non-digit character that follows.
-                Some(None) => $invalid_digit!(<T>::ZERO, iter.cursor() + 1, iter.current_count()),
-                // No digits following, has to be ok
-                None => $into_ok!(<T>::ZERO, index, iter.current_count()),
-            };
+            // NOTE: Zeros has to be 1 here, so our index == 0 or 1 (depending on sign)
+            // A valid digit following the zero is an invalid value. Otherwise the
+            // zero is the only digit: the end of the input, a base suffix or an
+            // invalid character are handled as for any other digit below.
+            if let Some(Some(_)) = iter.peek().map(|&c| char_to_digit_const(c, format.radix())) {
+                into_error!(InvalidLeadingZeros, index);
+            }
         }
     }
 
